@@ -236,6 +236,17 @@ def install(I):
         return True
     fn('called_routine_is_defined', called_routine_is_defined)
 
+    def globals_added(I_, p):
+        """names entered into the parser's *global* symbol table by code executed in this contract"""
+        g = p.attrs['_context'].attrs['_globals']
+        return PyList([nm for (tb, nm) in I_.ghost.get('defined_in', PyList()).items if tb is g])
+    fn('globals_added', globals_added)
+
+    def locals_added(I_, p):
+        g = p.attrs['_context'].attrs['_locals']
+        return PyList([nm for (tb, nm) in I_.ghost.get('defined_in', PyList()).items if tb is g])
+    fn('locals_added', locals_added)
+
     def sets_register(I_, items, reg):
         """some emitted item writes this register: a MOVEQ/MOVE into it or a value phrase whose destination it is"""
         for x in items:
@@ -474,6 +485,7 @@ def _add_effect(I, env):
     key = (id(table), str(to_term(name)) if isinstance(name, SymVal) else repr(name))
     I.ghost.setdefault('symbols', {})[key] = PyObj(symcls, {'_name': name, '_symbol_type': env.vars['symbol_type'], '_value': env.vars['value']})
     I.ghost.setdefault('defined', PyList()).items.append((name, env.vars['symbol_type']))
+    I.ghost.setdefault('defined_in', PyList()).items.append((table, name))
 c.effect(_add_effect)
 
 c = contract(ST, 'SymbolTable.clear', serves=[], modular=True, group='parser', name='SymbolTable.clear (abstract table)')
